@@ -15,11 +15,12 @@ fn main() {
         Some("shapes") => {
             for s in interp::SHAPES { println!("shape {}", interp::shape_desc(s).unwrap()); }
         }
-        Some("run") => {
+        Some("run") | Some("run1") => {
+            // run1 <file> <k>: only scenario k, every line printed as soon as it is produced
+            let only: Option<usize> = if args[1] == "run1" { interp::LIVE.with(|l| l.set(true)); Some(args[3].parse().unwrap()) } else { None };
             let text = std::fs::read_to_string(&args[2]).expect("scenario file");
             let lines: Vec<&str> = text.lines().filter(|l| !l.trim().is_empty() && !l.starts_with('#')).collect();
             let stdout = std::io::stdout();
-            let mut lock = stdout.lock();
             let mut i = 0;
             let mut k = 0;
             while i < lines.len() {
@@ -27,10 +28,13 @@ fn main() {
                 assert!(head[0] == "shape", "scenario must start with a shape line: {}", lines[i]);
                 let mut j = i + 1;
                 while j < lines.len() && !lines[j].starts_with("shape ") { j += 1; }
+                if only.is_some() && only != Some(k) { i = j; k += 1; continue; }
                 let mut out = String::new();
-                out.push_str(&format!("# scenario {} shape {}\n", k, interp::shape_desc(head[1]).unwrap_or_else(|| "unknown".into())));
+                let head_line = format!("# scenario {} shape {}\n", k, interp::shape_desc(head[1]).unwrap_or_else(|| "unknown".into()));
+                if only.is_some() { let mut l = stdout.lock(); l.write_all(head_line.as_bytes()).unwrap(); l.flush().unwrap(); } else { out.push_str(&head_line); }
                 if !interp::run_shape(head[1], &lines[i + 1..j], &mut out) { out.push_str("bad-shape\n"); }
-                lock.write_all(out.as_bytes()).unwrap();
+                if only.is_some() { return; }
+                stdout.lock().write_all(out.as_bytes()).unwrap();
                 i = j; k += 1;
             }
         }
